@@ -53,6 +53,18 @@ def k6(timeout=120, rmax=10 ** 8, **kw):
     import chartparse.tick as T
     f = getattr(T.note_duration_to_ticks, "__wrapped__", T.note_duration_to_ticks)
     rows, inc = [], []
+    # validation of the encoding (and a net under code shapes the encoder does not support): the live
+    # function itself on every resolution up to 3000 and a spread of larger ones
+    for R in list(range(1, 3001)) + [3 * 10**k + d for k in range(4, 9) for d in (-1, 0, 1, 2)]:
+        try:
+            got = f(R, T.NoteDuration.EIGHTH_TRIPLET)
+        except Exception as e:  # noqa: BLE001
+            got = "raised %s" % type(e).__name__
+        if got != (R + 1) // 3:
+            rows.append({"name": "K6:live function at R=%d" % R, "got": str(got), "s": 0.0})
+            return _res(rows, fail={"detail": "K6: note_duration_to_ticks(%d, EIGHTH_TRIPLET) = %s, nearest tick to R/3 is %d" % (R, got, (R + 1) // 3),
+                                    "call": "R=%s" % R, "replay_src": K6_REPLAY % R})
+    rows.append({"name": "K6:live function on 3020 resolutions", "got": "unsat", "s": 0.0})
     try:
         fdef, body = fn_body(f)
         argnames = [a.arg for a in fdef.args.args]
